@@ -896,6 +896,10 @@ func filterRemovetags(in *Value, param *Value) (*Value, *Error) {
 
 func filterRjust(in *Value, param *Value) (*Value, *Error) {
 	padding := param.Integer()
+	if padding < 0 {
+		// (a negative width would be fmt's left-justify flag)
+		padding = 0
+	}
 	if padding > maxCharPadding {
 		return nil, &Error{
 			Sender:    "filter:rjust",
